@@ -135,6 +135,7 @@ func main() {
 	genBufferVC()
 	genOtherVC()
 	genLoop()
+	genUrlObject()
 }
 
 // exprString / stmtsString: canonical whitespace-free rendering of AST fragments used for shape matching.
